@@ -9,8 +9,9 @@ EmitLine(rec) ==
             [format |-> "TXT", charset |-> "UTF-8", openOptions |-> <<"WRITE", "CREATE", "APPEND">>]).exitValue = 0
 
 Words == <<<<0, 0, 0, 0>>, <<0, 0, 0, 1>>, <<1, 2, 3, 4>>, <<127, 255, 255, 255>>, <<128, 0, 0, 0>>, <<255, 255, 255, 255>>, <<90, 171, 205, 239>>>>
+         \o (IF IOEnv.VERIF_TIER = "thorough" THEN [k \in 1..60 |-> <<(k * 37) % 256, (k * 101) % 256, (k * 13 + 5) % 256, (k * 211) % 256>>] ELSE <<>>)
 Rand(w, n) == IF n <= 4 THEN SubSeq(Words[w], 1, n) ELSE Words[w] \o Fill(w, n - 4)
-Lens == <<0, 3, 4, 5, 31, 32, 33>>
+Lens == <<0, 3, 4, 5, 31, 32, 33>> \o (IF IOEnv.VERIF_TIER = "thorough" THEN <<1, 2, 6, 7, 8, 16, 28, 30, 34, 48, 64, 255, 256, 1000>> ELSE <<>>)
 None == <<>>
 Some(x) == <<x>>
 Sids == <<None, Some(<<7>>), Some(Fill(3, 32))>>
@@ -48,7 +49,8 @@ ServerIdCases ==
 (* the lookup is per element: every list of length <= 4 over {two listed ids, a GREASE id, an unlisted id} - repeats, *)
 (* alternations and unlisted ids between listed ones                                                                  *)
 PatIds == <<47, 4865, 2570, 65535>>
-PatIdx == SetToSeq(UNION {[1..n -> 1..4] : n \in 1..4})
+Thorough == IOEnv.VERIF_TIER = "thorough"
+PatIdx == SetToSeq(UNION {[1..n -> 1..4] : n \in 1..(IF Thorough THEN 6 ELSE 4)})
 PatternCases ==
   [q \in 1..Len(PatIdx) |->
     [kind |-> <<"new_client_hello", "parsed_client_hello", "parsed_dtls_client_hello">>[(q % 3) + 1],
